@@ -958,7 +958,20 @@ func (s *S3Proxy) GetObjectAttributes(ctx context.Context, input *s3.GetObjectAt
 		input.VersionId = nil
 	}
 
+	if len(input.ObjectAttributes) == 0 {
+		// the controller names no attributes (it filters the answer itself), the SDK
+		// refuses a call without the list: ask for everything
+		input.ObjectAttributes = []types.ObjectAttributes{
+			types.ObjectAttributesEtag, types.ObjectAttributesChecksum, types.ObjectAttributesObjectParts,
+			types.ObjectAttributesStorageClass, types.ObjectAttributesObjectSize,
+		}
+	}
+
 	out, err := s.client.GetObjectAttributes(ctx, input)
+	if err != nil {
+		// no output to read from (it was dereferenced: panic)
+		return s3response.GetObjectAttributesResponse{}, handleError(err)
+	}
 
 	parts := s3response.ObjectParts{}
 	objParts := out.ObjectParts
@@ -991,7 +1004,7 @@ func (s *S3Proxy) GetObjectAttributes(ctx context.Context, input *s3.GetObjectAt
 		StorageClass: out.StorageClass,
 		ObjectParts:  &parts,
 		Checksum:     out.Checksum,
-	}, handleError(err)
+	}, nil
 }
 
 func (s *S3Proxy) CopyObject(ctx context.Context, input s3response.CopyObjectInput) (*s3.CopyObjectOutput, error) {
